@@ -77,3 +77,24 @@ def shared_views(Scores, pa, na, **kw):
     except Exception:
         pass
     return before
+
+
+def from_views(Scores, pos, neg, dtype=float, **kw):
+    """the object is built from two writeable VIEWS of one caller buffer (slices of one score vector); afterwards further
+    objects are built from overlapping regions of that buffer (the whole vector, its reversal, a growing prefix).  The
+    constructor sorts copies, so the buffer must be unchanged and the first object must still answer for the scores it was
+    given.  -> (object, description of what changed in the caller's buffer or None)"""
+    data = np.array(list(pos) + list(neg), dtype=dtype)
+    before = data.copy()
+    k = len(pos)
+    s = Scores(data[:k], data[k:], **kw)
+    kw2 = {a: b for a, b in kw.items() if a not in ("is_sorted", "nb_easy_pos", "nb_easy_neg")}
+    for a, b in ((data[::-1], data[:1]), (data[1:], data[:1]), (data[: max(1, len(data) // 2)], data)):
+        try:
+            Scores(a, b, **kw2)
+        except Exception:
+            pass
+    changed = None
+    if not np.array_equal(before, data, equal_nan=True):
+        changed = f"the caller's score vector changed from {before.tolist()[:8]} to {data.tolist()[:8]}"
+    return s, changed
